@@ -7,7 +7,7 @@ Variable K : fld.
 Add Field KFent : (fth K).
 Variable V : lenv K.
 Notation ex := (l_ex K V). Notation sn := (l_sn K V). Notation cs := (l_cs K V). Notation fabs := (l_fabs K V).
-Notation pi_ := (l_pi K V). Notation isr := (l_isr K V). Notation neg := (l_neg K V). Notation Fn := (l_Fn K V). Notation Ic := (l_Ic K V).
+Notation pi_ := (l_pi K V). Notation isr := (l_isr K V). Notation neg := (l_neg K V). Notation Fn := (l_Fn K V). Notation Ic := (l_Ic K V). Notation Fv := (l_Fv K V).
 Hypothesis ex_0 : ex 0 = 1.
 Hypothesis fabs_pos : forall a, pos K neg a = true -> fabs a = a.
 Lemma ex_eq a b : a = b -> ex a = ex b. Proof. intros ->. reflexivity. Qed.
@@ -39,6 +39,14 @@ Proof. intros v k zic s. unfold gen_deriv, spec_deriv. cbv zeta. destruct zic; c
   - rewrite (sum_range_ic K Ic v k s). unfold Icz.
     assert (E : forall n, ic_sum K (fun v m => Ic v m) v n s = ic_sum K Ic v n s) by (intros; reflexivity).
     replace (ic_sum K (fun (v0 m : nat) => if false then 0 else Ic v0 m) v k s) with (ic_sum K Ic v k s) by reflexivity. ring. Qed.
+(* sifting: delta(a t + b) v(.), a > 0, X = v at t0 = -b/a  |->  const X e^{-s t0} / a *)
+Theorem table_entry_sift : forall (c X a b s : K), pos K neg a = true ->
+  gen_sift K V c X a b s = spec_sift K ex c X a b s.
+Proof using fabs_pos. intros c X a b s Ha. unfold gen_sift, spec_sift. cbv zeta. rewrite (fabs_pos a Ha).
+  assert (Hz : a <> 0).
+  { unfold pos in Ha. apply andb_true_iff in Ha. destruct Ha as [_ H]. apply negb_true_iff in H. apply feqb_neq in H. exact H. }
+  rewrite (ex_eq (- s * (- b / a)) (- (- b / a * s))) by (field; exact Hz). reflexivity. Qed.
 End Entry.
 Print Assumptions table_entry_func.
+Print Assumptions table_entry_sift.
 Print Assumptions table_entry_deriv.
